@@ -295,7 +295,14 @@ def _check_duration_definition(prog: Program, res: Result):
         mx = next((k for k, d in defs.items() if isinstance(d, ast.Call) and attr_chain(d.func) == "max" and len(d.args) == 1 and ast.unparse(d.args[0]) == nom_name), None)
         use = [n for n in ast.walk(fi.node) if isinstance(n, ast.Call) and isinstance(n.func, ast.Name) and n.func.id == itp[0] and len(n.args) == 1 and mx is not None and ast.unparse(n.args[0]) == mx]
         grd = [n for n in ast.walk(fi.node) if isinstance(n, ast.If) and use and any(use[0] is x for b_ in n.body for x in ast.walk(b_))]
-        okgd = bool(grd) and mx is not None and ast.unparse(grd[0].test).replace(" ", "") in (f"{mx}>0.0", f"{mx}>0")
+        okgd = False
+        if grd and mx is not None:
+            from ..paths import cmp_is
+
+            e_ = Engine(prog, fi, Hooks())
+            s_ = State()
+            s_.env[mx] = Rat.atom("MX")
+            okgd = cmp_is(e_.cond(grd[0].test, s_), Rat.atom("MX"), "+")
         okd = okx and bool(use) and okgd
     res.ob("R07.8", "duration = time at which the peak-step response equals max(nominal two-day response) (inverse interpolation), only if that maximum is positive", okd, prog.loc(fi, fi.node))
     if not okd:
